@@ -532,4 +532,51 @@ def _compile(nl, design, h, in_sigs, probes, probe_vals):
             if not n.is_const and n.cell in state_cells and n.cell not in names:
                 names[n.cell] = sig.name
     out.state_names = [names.get(ci, f"c{ci}") for ci in state_cells] + [f"mem{mi}" for mi in mems]
+
+    def support_of(names_, through_state=True):
+        """Input names in the (cell-level, hence over-approximated) cone of the given probes."""
+        need, wk, bits = set(), [], set()
+
+        def nn(net):
+            if net.is_const:
+                return
+            if net.cell == 0:
+                bits.add(net.bit)
+            elif net.cell not in need:
+                need.add(net.cell); wk.append(net.cell)
+
+        for nme in names_:
+            kind, x = probe_nets[out.probe_index[nme]]
+            if kind == "mem":
+                if x not in need:
+                    need.add(x); wk.append(x)
+            else:
+                for n in x:
+                    nn(n)
+        while wk:
+            ci = wk.pop()
+            c = cells[ci]
+            if isinstance(c, nir.Memory):
+                for wp in wports.get(ci, ()):
+                    if wp not in need:
+                        need.add(wp); wk.append(wp)
+                continue
+            if isinstance(c, (nir.AsyncReadPort, nir.SyncReadPort)) and c.memory not in need:
+                need.add(c.memory); wk.append(c.memory)
+            if isinstance(c, (nir.FlipFlop, nir.SyncReadPort, nir.SyncWritePort)):
+                if not through_state and not isinstance(c, nir.SyncWritePort):
+                    continue
+                for n in c.input_nets():
+                    if n != c.clk:
+                        nn(n)
+            else:
+                for n in c.input_nets():
+                    nn(n)
+        res = []
+        for k, pos in enumerate(in_pos):
+            if pos is not None and any(b in bits for b in range(pos[0], pos[0] + pos[1])):
+                res.append(h.inputs[k][0])
+        return res
+
+    out.support_of = support_of
     return out
